@@ -774,7 +774,7 @@ func hsCorpus(c *hx.Ctx, cw *hx.CaseWriter) {
 }
 
 func runHsmgr(c *hx.Ctx, check string) {
-	cw := c.NewCaseWriter("From NV Require Import model.HostMap model.HsMgr corr.HsMgr_corr.", "HsMgr_corr.case", check, 12)
+	cw := c.NewCaseWriter("From NV Require Import model.HostMap model.HsMgr corr.HsMgr_corr.", "HsMgr_corr.case", check, 10)
 	hsCorpus(c, cw)
 	for i := 0; i < c.N; i++ {
 		my := []uint64{1}
